@@ -226,6 +226,18 @@ class SimMarker(MarkerRelation):
         return f"mark({self.target})"
 
 
+class SimPinned(SimMarker):
+    """A user-defined marker that declares itself *locked* (like the library's own Transfer / Materialization):
+    tree-manipulation algorithms must leave it and everything upstream of it alone."""
+
+    @property
+    def is_locked(self) -> bool:
+        return True
+
+    def __str__(self) -> str:
+        return f"pin({self.target})"
+
+
 # ------------------------------------------------------------------ user-defined unary operations
 # RowFilter and Reordering are the library's documented extension points for unary operations.  The three below have
 # flags that leave no room for interpretation: a count-dependent filter, a positional filter that (like Slice) is both
